@@ -345,6 +345,24 @@ class CFG:
         self.feasible_reach(None, lambda lit, b, i: False, lambda a: True, start=start, accept=accept)
         return vals
 
+    def values_at_return(self, ret):
+        """the values a particular `return <variable>` can deliver, over the consistent paths from the entry (None = unknown)"""
+        rb = self.block_of(ret)
+        vals = set()
+        if not ret.children:
+            return {None}
+        e = ret.children[0]
+        if e.const_value() is not None:
+            return {e.const_value()}
+        nm = render(e)
+
+        def accept(b, fd):
+            if b == rb:
+                vals.add(fd.get("=" + nm))
+            return False
+        self.feasible_reach(None, lambda lit, b, i: False, lambda a: True, accept=accept)
+        return vals
+
     def success_cut(self, pred):
         return self.success_path_avoiding(lambda lit, b, i: pred(lit, b, i)) is None
 
@@ -518,6 +536,16 @@ class CFG:
                             if x.strip().k == "DeclRefExpr" and x.const_value() is None and y.const_value() is not None:
                                 nf["=" + render(x)] = y.const_value()
                                 nf[render(x)] = bool(y.const_value())
+                    elif lit.kind == "eq" and not lit.pol:
+                        # x != 0: the truth of x is known (its value is not)
+                        for x, y in ((lit.lhs, lit.rhs), (lit.rhs, lit.lhs)):
+                            if x.strip().k == "DeclRefExpr" and x.const_value() is None and y.const_value() == 0:
+                                if nf.get(render(x)) is False:
+                                    nf = None
+                                    break
+                                nf[render(x)] = True
+                        if nf is None:
+                            continue
                 nxt = (s, frozenset(nf.items()))
                 if nxt not in prev:
                     prev[nxt] = (cur, (b, i))
